@@ -20,6 +20,7 @@ ASSUMPTIONS = ['vmon/ref/param.py row builder (validated against the literal row
 
 
 def prepare(ctx):
+    ctx.online_wanted = ('C03', 'C04', 'C05', 'C09')      # shadow-model monitors watch the file layer while this workload runs
     from cardutil import mciipm
     from cardutil.config import config
     from cardutil.cli import mci_ipm_param_to_csv
